@@ -77,6 +77,10 @@ class SFloat:
     def __init__(self, e):
         self.e = e
 
+    def __round__(self, n=None):
+        from .engine import Inconclusive
+        raise Inconclusive("round() of a symbolic float (decimal rounding is not modelled)")
+
     @staticmethod
     def of(x):
         if isinstance(x, SFloat):
